@@ -274,6 +274,46 @@ fn ts_add(t: jiff::Timestamp, s: Span, d: SignedDuration, cls: &str) -> Value {
            "dadd":j(guard(|| t.checked_add(d))),"dsub":j(guard(|| t.checked_sub(d))),"dsat":j(guard(|| t.saturating_add(d)))})
 }
 
+/// Time::with(): any combination of its setters (scope "beyond": no listed property mentions the builders).
+/// set[i] = 1 when field i (hour, minute, second, millisecond, microsecond, nanosecond, subsec_nanosecond) is set.
+fn twith(rng: &mut Rng) -> Value {
+    let o = Time::new(rng.range(0, 23) as i8, rng.range(0, 59) as i8, rng.range(0, 59) as i8, rng.range(0, 999_999_999) as i32).unwrap();
+    let mut set = [0i64; 7];
+    let mut val = [0i64; 7];
+    for i in 0..7 {
+        if rng.chance(1, 3) {
+            set[i] = 1;
+            let hi = [23i64, 59, 59, 999, 999, 999, 999_999_999][i];
+            val[i] = match rng.next() % 6 {
+                0 => hi,
+                1 => 0,
+                2 => if i < 6 { hi + 1 } else { hi + 1 },
+                3 => -1,
+                _ => rng.range(0, hi),
+            };
+            // the setters take i8 / i16 / i32: stay inside those types
+            val[i] = val[i].clamp(-1, if i < 3 { 127 } else if i < 6 { 1000 } else { 1_000_000_000 });
+        }
+    }
+    let r = guard(|| {
+        let mut w = o.with();
+        if set[0] == 1 { w = w.hour(val[0] as i8); }
+        if set[1] == 1 { w = w.minute(val[1] as i8); }
+        if set[2] == 1 { w = w.second(val[2] as i8); }
+        if set[3] == 1 { w = w.millisecond(val[3] as i16); }
+        if set[4] == 1 { w = w.microsecond(val[4] as i16); }
+        if set[5] == 1 { w = w.nanosecond(val[5] as i16); }
+        if set[6] == 1 { w = w.subsec_nanosecond(val[6] as i32); }
+        w.build()
+    });
+    let (st, res) = match r {
+        Ok(Ok(t)) => ("ok", jtime(t)),
+        Ok(Err(_)) => ("err", json!([])),
+        Err(_) => ("panic", json!([])),
+    };
+    json!({"op":"twith","cls":"builder","scope":"beyond","o":jtime(o),"set":set,"val":val,"st":st,"res":res})
+}
+
 pub fn run_c08(a: &Args) {
     let mut out = Out::new(&a.out, "c08", 12_000);
     let mut rng = Rng::new(a.seed, 8);
@@ -356,6 +396,9 @@ pub fn run_c08(a: &Args) {
             _ => gen_span(&mut rng, &all),
         };
         out.emit(series_ev(DateTime::from_parts(d, t), s, 6, "series"));
+    }
+    for _ in 0..(if quick { 3000 } else { 60_000 }) {
+        out.emit(twith(&mut rng));
     }
     // Timestamp arithmetic (scope beyond)
     for k in 0..(if quick { 3000 } else { 60_000 }) {
